@@ -13,3 +13,35 @@ impl ArrayRef {
 // marker returned when the validation lets the call through to the allocation `Slice { start, end, array }`,
 // whose size is computed as `self.end - self.start` and which copies `array.iter().skip(start).take(end - start)`
 pub struct Validated { pub start: usize, pub end: usize }
+
+// ---- value.rs ValueArray::get: the bounds test in front of the unchecked element read
+pub enum Repr { Byte, Int, Float, String, Array, Unknown, Userdata, Thread }
+pub struct ValueArray { pub repr: Repr, pub elems: Ghost<Seq<int>> }
+#[verifier::external_body] pub struct Elem { _p: () }        // one stored element (typed by the array's representation)
+#[verifier::external_body] pub struct Payload { _p: () }     // its value, copied out
+pub enum ValueRepr { Byte(Payload), Int(Payload), Float(Payload), String(Payload), Array(Payload), Userdata(Payload), Thread(Payload), Other(Payload) }
+impl Elem {
+    #[verifier::external_body] pub fn clone(&self) -> Payload { unimplemented!() }
+    #[verifier::external_body] pub fn clone_unrooted(&self) -> Payload { unimplemented!() }
+    // `unsafe_get::<Value>(i).clone_unrooted().0`: the representation inside a Value
+    #[verifier::external_body] pub fn clone_unrooted_repr(&self) -> ValueRepr { unimplemented!() }
+}
+impl ValueArray {
+    pub open spec fn spec_len(&self) -> nat { self.elems@.len() }
+    #[verifier::external_body]
+    pub fn len(&self) -> (r: usize) ensures r == self.spec_len() { unimplemented!() }
+    // `unsafe fn unsafe_get<T>(&self, index) -> &T` = `&*self.array.as_ptr().add(index)`-style unchecked read: Rust's
+    // obligation for calling it, stated as a precondition
+    #[verifier::external_body]
+    pub fn unsafe_get(&self, index: usize) -> (r: &Elem)
+        requires index < self.spec_len()
+    { unimplemented!() }
+}
+#[verifier::external_body] pub struct Value { _p: () }
+impl Value {
+    #[verifier::external_body] pub fn from(r: ValueRepr) -> Value { unimplemented!() }
+}
+pub struct Variants;
+impl Variants {
+    #[verifier::external_body] pub fn with_root(v: &Value, root: &ValueArray) -> Variants { unimplemented!() }
+}
